@@ -1,6 +1,6 @@
 (* C17 — unification and type equality are sound.  Statements only; proofs live in Proofs/C17Proofs.v. *)
 From Coq Require Import List String Bool.
-From Yae Require Import Base.Sexp Model.Ty Model.Unify Model.TySpec Proofs.C17Proofs.
+From Yae Require Import Base.Sexp Model.Ty Model.Unify Model.TySpec Model.TySpec2 Proofs.C17Proofs Proofs.C17TwoSided.
 Import ListNotations.
 
 (* Type equality is an equivalence relation on well-formed types (distinct field names, keyable map keys) ... *)
@@ -51,6 +51,29 @@ Theorem C17_bot_left : forall fa f y m r m',
   slot_free y = true -> unify fa (S f) TBot y m = Ok (r, m') -> y = TBot.
 Proof. exact C17Proofs.bot_left. Qed.
 Print Assumptions C17_bot_left.
+
+(* Variables on BOTH sides ("whenever unification of two types succeeds, applying the resulting substitution to both makes
+   them equal and no variable is bound to a type containing itself or to two different types"): the substitution stays
+   acyclic, old bindings are kept, and wherever it can be applied to both types the results are equal. *)
+Theorem C17_unify_sound : forall fa f x y m r m',
+  two_ok x = true -> two_ok y = true -> binds_ok m = true -> acyclic m ->
+  unify fa f x y m = Ok (r, m') ->
+  acyclic m' /\ binds_ok m' = true /\ extends m m' /\ unifies m' x y.
+Proof. exact C17TwoSided.unify_sound_two_sided. Qed.
+Print Assumptions C17_unify_sound.
+
+(* "wherever it can be applied" is a real restriction (known finding, KNOWN_FINDINGS: unify-binds-map-key-variable-to-
+   unkeyable-type): two-sided unification can bind a variable that occurs in map-key position to a composite type, and
+   the result then cannot be applied (types.Map panics on a key that is not keyable) *)
+Example C17_unappliable_witness :
+  let x := TTuple [TVar "a"; TMap (TVar "a") (TVar "a")] in
+  let y := TTuple [TMap (TVar "b") TNum; TMap (TVar "a") (TVar "a")] in
+  two_ok x = true /\ two_ok y = true /\
+  exists r m', unify 100 100 x y [] = Ok (r, m') /\ apply_subst 100 m' x = Panic.
+Proof.
+  cbv zeta. split; [vm_compute; reflexivity|]. split; [vm_compute; reflexivity|].
+  do 2 eexists. split; [vm_compute; reflexivity | vm_compute; reflexivity].
+Qed.
 
 (* non-vacuity: the hypotheses are satisfiable and the functions compute *)
 Example C17_example :
